@@ -63,6 +63,7 @@ def run(ctx):
     key_rule(ctx)
     pin_rule(ctx)
     fixed_rule(ctx)
+    embedded_rule(ctx)
     alias_rule(ctx)
     from . import C10
     C10.run(ctx, P='C05-FRESH', cache_only=True)
@@ -272,11 +273,6 @@ def fixed_rule(ctx, prefix='C05-FIXED'):
     stale_attrs.add('fixed_param_values')
     stale_attrs.discard('filter_num')
     # key of the constructed-SQL cache
-    cs = repo.fn('pony.orm.core', 'Query._construct_sql_and_arguments')
-    keycalls = [s for s in walk_no_nested(cs.node) if isinstance(s, ast.Assign) and any(dotted(t) == 'sql_key' for t in s.targets)]
-    ctx.need(keycalls and isinstance(keycalls[0].value, ast.Call), 'C05: sql_key construction not found')
-    keytxt = norm(keycalls[0].value, limit=10000)
-    key_attrs = {a.attr for a in ast.walk(keycalls[0].value) if isinstance(a, ast.Attribute)}
     # attributes updated together (B.update(e) next to A.update(e) everywhere A is updated)
     cover = {a: {a} for a in stale_attrs}
     for a in stale_attrs:
@@ -294,18 +290,55 @@ def fixed_rule(ctx, prefix='C05-FIXED'):
                         and x.value.args and norm(x.value.args[0]) == arg}
                 cands = here if cands is None else (cands & here)
             cover[a] |= (cands or set())
-    for a in sorted(stale_attrs):
-        ok = bool(cover[a] & key_attrs)
-        ctx.ob(prefix + '.staleness-inputs-are-in-sql-key', cs, keycalls[0], ok,
-               '' if ok else '_get_translator rebuilds the translator when translator.%s changes, but the key of _constructed_sql_cache contains '
-               'none of %s: the rebuilt translator maps to the same key and reuses SQL generated for the old %s' % (a, sorted(cover[a]), a),
-               expected='sql_key includes translator.%s (or an attribute updated together with it)' % a).key += '::' + a
+    # every function that files SQL text in the constructed-SQL cache (SELECT and bulk DELETE)
+    users = [f for f in repo.rule_funcs() if f.mod.name == 'pony.orm.core' and any(
+             isinstance(x, ast.Subscript) and isinstance(x.ctx, ast.Store) and isinstance(x.value, ast.Attribute) and x.value.attr == '_constructed_sql_cache'
+             for x in walk_no_nested(f.node))]
+    ctx.need(any(f.qual == 'Query._construct_sql_and_arguments' for f in users), 'C05: Query._construct_sql_and_arguments does not store into _constructed_sql_cache')
+    for cs in users:
+        keycalls = [s for s in walk_no_nested(cs.node) if isinstance(s, ast.Assign) and any(dotted(t) == 'sql_key' for t in s.targets)]
+        ctx.need(keycalls and isinstance(keycalls[0].value, ast.Call), 'C05: sql_key construction not found in %s' % cs.qual)
+        keytxt = norm(keycalls[0].value, limit=10000)
+        key_attrs = {a.attr for a in ast.walk(keycalls[0].value) if isinstance(a, ast.Attribute)}
+        for a in sorted(stale_attrs):
+            ok = bool(cover[a] & key_attrs)
+            ctx.ob(prefix + '.staleness-inputs-are-in-sql-key', cs, keycalls[0], ok,
+                   '' if ok else '_get_translator rebuilds the translator when translator.%s changes, but the key under which %s files its SQL in _constructed_sql_cache '
+                   'contains none of %s: the rebuilt translator maps to the same key and reuses SQL generated for the old %s' % (a, cs.qual, sorted(cover[a]), a),
+                   expected='sql_key includes translator.%s (or an attribute updated together with it)' % a).key += '::' + a
+    ctx.floor(prefix, len(users), 2, 'functions that store into _constructed_sql_cache')
+    cs = repo.fn('pony.orm.core', 'Query._construct_sql_and_arguments')
+    keycalls = [s for s in walk_no_nested(cs.node) if isinstance(s, ast.Assign) and any(dotted(t) == 'sql_key' for t in s.targets)]
+    keytxt = norm(keycalls[0].value, limit=10000)
     cc = [c for c in calls_in(cs.node) if isinstance(c.func, ast.Attribute) and c.func.attr == 'construct_sql_ast']
     ctx.need(cc, 'C05: construct_sql_ast call not found')
     for a in list(cc[0].args) + [k.value for k in cc[0].keywords]:
         ok = norm(a) in keytxt
         ctx.ob(prefix + '.sql-key-contains-construct-args', cs, a, ok,
                '' if ok else 'construct_sql_ast(... %s ...) shapes the SQL but %s is not part of sql_key' % (norm(a), norm(a)), node=a)
+
+
+def embedded_rule(ctx, prefix='C05-FIXED'):
+    """a query used inside another query is translated into the outer translator as a deep copy of its own translator: the parameter
+    values that copy has baked in must become staleness inputs of the OUTER cached translator as well"""
+    repo = ctx.repo
+    n = 0
+    for fn in repo.rule_funcs():
+        if fn.mod.name != 'pony.orm.sqltranslation': continue
+        for st in walk_no_nested(fn.node):
+            if not (isinstance(st, ast.Assign) and isinstance(st.value, ast.Call) and isinstance(st.value.func, ast.Attribute) and st.value.func.attr == 'deepcopy'
+                    and norm(st.value.func.value).endswith('.translator') and len(st.targets) == 1 and isinstance(st.targets[0], ast.Name)): continue
+            n += 1
+            v = st.targets[0].id
+            ups = [c for c in calls_in(fn.node) if isinstance(c.func, ast.Attribute) and c.func.attr == 'update' and norm(c.func.value).endswith('root_translator.fixed_param_values')
+                   and c.args and norm(c.args[0]) == v + '.fixed_param_values']
+            ok = bool(ups)
+            ctx.ob(prefix + '.embedded-query-fixed-values-propagate', fn, st, ok,
+                   '' if ok else 'the translator of an embedded query is copied into this translation (`%s`) but its fixed_param_values are not added to the root '
+                   'translator\'s: when the embedded query is later built with another value (another getattr name, another string index) the cached outer '
+                   'translation still contains the SQL of the first value' % norm(st), node=st,
+                   expected='translator.root_translator.fixed_param_values.update(%s.fixed_param_values)' % v)
+    ctx.floor(prefix, n, 2, 'embedded-query translator copies')
 
 
 def bodies(node):
@@ -378,6 +411,8 @@ def alias_rule(ctx):
 
 
 MUTANTS = [
+    dict(id='C05-e1', file='pony/orm/sqltranslation.py', fn='SQLTranslator.dispatch_external', old="            translator.root_translator.fixed_param_values.update(prev_translator.fixed_param_values)\n", new="", expect='C05-FIXED.embedded'),
+    dict(id='C05-e2', file='pony/orm/core.py', fn='Query.delete', old="        sql_key = HashableDict(query._key, vartypes=HashableDict(translator.vartypes),\n                               fixed_param_values=HashableDict(translator.fixed_param_values), sql_command='DELETE')", new="        sql_key = HashableDict(query._key, sql_command='DELETE')", expect='C05-FIXED.staleness'),
     dict(id='C05-f1', file='pony/orm/core.py', fn='SessionCache.flush', old="                    cache.query_results.clear()\n                    modified_m2m = cache._calc_modified_m2m()", new="                    modified_m2m = cache._calc_modified_m2m()", expect='C05-FRESH'),
     dict(id='C05-m1', file='pony/orm/core.py', fn='adapt_sql', old='    adapted_sql_cache[(original_sql, paramstyle)] = result', new='    adapted_sql_cache[(sql, paramstyle)] = result', expect='C05-KEY'),
     dict(id='C05-m2', file='pony/orm/core.py', fn='Query._construct_sql_and_arguments', old='            vartypes=HashableDict(query._translator.vartypes),\n', new='', expect='C05-FIXED.staleness'),
